@@ -99,15 +99,15 @@ theorem qv_clear_other {m m' : Nat} (h : m' ≠ m) (q : List QE) :
 
 /-! ### tags -/
 
-theorem TagsOK.frame {s s' : St} (h : TagsOK s) (hq : s'.queue = s.queue) (hn : s'.nextTag = s.nextTag) :
+theorem _root_.TM.TagsOK.frame {s s' : St} (h : TagsOK s) (hq : s'.queue = s.queue) (hn : s'.nextTag = s.nextTag) :
     TagsOK s' :=
   ⟨by rw [hq]; exact h.nodup, by rw [hq, hn]; exact h.lt⟩
 
-theorem TagsOK.sublist {s s' : St} (h : TagsOK s) (hq : s'.queue.Sublist s.queue) (hn : s'.nextTag = s.nextTag) :
+theorem _root_.TM.TagsOK.sublist {s s' : St} (h : TagsOK s) (hq : s'.queue.Sublist s.queue) (hn : s'.nextTag = s.nextTag) :
     TagsOK s' :=
   ⟨h.nodup.sublist (hq.map _), by rw [hn]; intro e he; exact h.lt e (hq.subset he)⟩
 
-theorem TagsOK.push {s s' : St} (h : TagsOK s) (m ev : Nat) (hq : s'.queue = s.queue ++ [(m, ev, s.nextTag)])
+theorem _root_.TM.TagsOK.push {s s' : St} (h : TagsOK s) (m ev : Nat) (hq : s'.queue = s.queue ++ [(m, ev, s.nextTag)])
     (hn : s'.nextTag = s.nextTag + 1) : TagsOK s' := by
   refine ⟨?_, ?_⟩
   · rw [hq, List.map_append, List.nodup_append]
@@ -125,7 +125,7 @@ theorem TagsOK.push {s s' : St} (h : TagsOK s) (m ev : Nat) (hq : s'.queue = s.q
     · simp at h1; subst h1; exact Nat.lt_succ_self _
 
 /-- the tags of one model's queue are pairwise distinct -/
-theorem TagsOK.qv_nodup {s : St} (h : TagsOK s) (m : Nat) : ((qv m s.queue).map (·.1)).Nodup := by
+theorem _root_.TM.TagsOK.qv_nodup {s : St} (h : TagsOK s) (m : Nat) : ((qv m s.queue).map (·.1)).Nodup := by
   have : (qv m s.queue).map (·.1) = (s.queue.filter fun e => e.1 = m).map (·.2.2) := by
     simp [qv, key, Function.comp_def]
   rw [this]
@@ -227,6 +227,335 @@ theorem adv_close_exc (fin0 : Nat) (ms : MS) (σ : Q) (st : List Q) (e : Exc) (h
     run fin0 ms [.raised σ.owner e] = some { stack := st } := by
   rw [run_one]
   simp [step, hp, hs]
+
+/-! ### the simulation relation -/
+
+/-- a session suspended inside one of its callbacks is exactly in step with its model's queue -/
+def InSync (σ : Q) (q : List QE) : Prop := ∃ m, modelOf σ = some m ∧ qv m q = σ.q
+
+/-- enclosing sessions only ever get deferred triggers appended -/
+def Ext : List Q → List Q → Prop
+  | [], [] => True
+  | a :: as, b :: bs => (b.owner = a.owner ∧ b.fin = a.fin ∧ ∃ suf, b.q = a.q ++ suf) ∧ Ext as bs
+  | _, _ => False
+
+theorem Ext.refl : ∀ l, Ext l l
+  | [] => trivial
+  | a :: as => ⟨⟨rfl, rfl, [], by simp⟩, Ext.refl as⟩
+
+theorem Ext.trans : ∀ {a b c : List Q}, Ext a b → Ext b c → Ext a c
+  | [], [], [], _, _ => trivial
+  | a :: as, b :: bs, c :: cs, ⟨⟨o1, f1, s1, q1⟩, h1⟩, ⟨⟨o2, f2, s2, q2⟩, h2⟩ =>
+    ⟨⟨o2.trans o1, f2.trans f1, s1 ++ s2, by rw [q2, q1, List.append_assoc]⟩, Ext.trans h1 h2⟩
+  | [], [], _ :: _, _, h => h.elim
+  | [], _ :: _, _, h, _ => h.elim
+  | _ :: _, [], _, h, _ => h.elim
+  | _ :: _, _ :: _, [], _, h => h.elim
+
+theorem Ext.nil_left : ∀ {b : List Q}, Ext [] b → b = []
+  | [], _ => rfl
+  | _ :: _, h => h.elim
+
+/-- the sessions below the innermost one (which drains the queue of `m`): distinct models, each in step with its
+model's queue, and every pending entry belongs to some session -/
+structure Lower (below0 below : List Q) (q : List QE) (m : Nat) : Prop where
+  ext : Ext below0 below
+  sync : ∀ σ ∈ below, InSync σ q
+  nodup : (some m :: below.map modelOf).Nodup
+  cover : ∀ e ∈ q, e.1 = m ∨ some e.1 ∈ below.map modelOf
+
+/-- the same once the innermost session has nothing pending any more -/
+structure LowerDone (below0 below : List Q) (q : List QE) : Prop where
+  ext : Ext below0 below
+  sync : ∀ σ ∈ below, InSync σ q
+  nodup : (below.map modelOf).Nodup
+  cover : ∀ e ∈ q, some e.1 ∈ below.map modelOf
+
+theorem InSync.frame {σ : Q} {q q' : List QE} (h : InSync σ q)
+    (hq : ∀ m', modelOf σ = some m' → qv m' q' = qv m' q) : InSync σ q' := by
+  obtain ⟨m, hm, hv⟩ := h
+  exact ⟨m, hm, by rw [hq m hm]; exact hv⟩
+
+/-- the innermost session's own queue changes (append / pop / clear): nothing below is affected -/
+theorem Lower.frame_top {below0 below : List Q} {q q' : List QE} {m : Nat} (h : Lower below0 below q m)
+    (hq : ∀ m', m' ≠ m → qv m' q' = qv m' q) (hc : ∀ e ∈ q', e ∈ q ∨ e.1 = m) : Lower below0 below q' m := by
+  refine ⟨h.ext, ?_, h.nodup, ?_⟩
+  · intro σ hσ
+    refine (h.sync σ hσ).frame ?_
+    intro m' hm'
+    refine hq m' ?_
+    intro hmm
+    subst hmm
+    have := h.nodup
+    simp only [List.nodup_cons] at this
+    exact this.1 (List.mem_map.mpr ⟨σ, hσ, hm'⟩)
+  · intro e he
+    rcases hc e he with h1 | h1
+    · exact h.cover e h1
+    · exact Or.inl h1
+
+theorem Lower.toDone {below0 below : List Q} {q : List QE} {m : Nat} (h : Lower below0 below q m)
+    (h0 : qv m q = []) : LowerDone below0 below q := by
+  refine ⟨h.ext, h.sync, (List.nodup_cons.mp h.nodup).2, ?_⟩
+  intro e he
+  rcases h.cover e he with h1 | h1
+  · exact absurd h1 (qv_eq_nil_iff.mp h0 e he)
+  · exact h1
+
+/-- in step, inside the block of the event `x` (innermost session `σ`, owner `d`), after at least one of its
+callbacks has started -/
+structure SynT (d : Nat) (below0 : List Q) (x : Ctx) (f : Bool) (σ : Q) (below : List Q) (s : St) : Prop where
+  owner : σ.owner = d
+  head : (qv x.model s.queue).head? = some (x.tag, x.model)
+  tags : TagsOK s
+  rel : qv x.model s.queue = σ.q
+  fin : σ.fin = f
+  low : Lower below0 below s.queue x.model
+
+/-- anywhere in the block of `x` before its finalize stage: in step, or the session still shows the completed
+previous head (lazy pop) -/
+structure BlkT (d : Nat) (below0 : List Q) (x : Ctx) (σ : Q) (below : List Q) (s : St) : Prop where
+  owner : σ.owner = d
+  head : (qv x.model s.queue).head? = some (x.tag, x.model)
+  tags : TagsOK s
+  rel : (qv x.model s.queue = σ.q ∧ σ.fin = false) ∨
+        (σ.fin = true ∧ ∃ h, h.1 ≠ x.tag ∧ h.2 = x.model ∧ σ.q = h :: qv x.model s.queue)
+  low : Lower below0 below s.queue x.model
+
+/-- what survives when the event raises -/
+structure AnyT (d : Nat) (below0 : List Q) (x : Ctx) (σ : Q) (below : List Q) (s : St) : Prop where
+  owner : σ.owner = d
+  tags : TagsOK s
+  low : Lower below0 below s.queue x.model
+
+def SynM (d : Nat) (below0 : List Q) (x : Ctx) (f : Bool) (ms : MS) (s : St) : Prop :=
+  ms.pend = none ∧ ∃ σ below, ms.stack = σ :: below ∧ SynT d below0 x f σ below s
+
+def BlkM (d : Nat) (below0 : List Q) (x : Ctx) (ms : MS) (s : St) : Prop :=
+  ms.pend = none ∧ ∃ σ below, ms.stack = σ :: below ∧ BlkT d below0 x σ below s
+
+def AnyM (d : Nat) (below0 : List Q) (x : Ctx) (ms : MS) (s : St) : Prop :=
+  ms.pend = none ∧ ∃ σ below, ms.stack = σ :: below ∧ AnyT d below0 x σ below s
+
+theorem SynT.frame {d : Nat} {below0 : List Q} {x : Ctx} {f : Bool} {σ : Q} {below : List Q} {s s' : St}
+    (h : SynT d below0 x f σ below s) (hq : s'.queue = s.queue) (hn : s'.nextTag = s.nextTag) :
+    SynT d below0 x f σ below s' :=
+  ⟨h.owner, by rw [hq]; exact h.head, h.tags.frame hq hn, by rw [hq]; exact h.rel, h.fin, by rw [hq]; exact h.low⟩
+
+theorem BlkT.frame {d : Nat} {below0 : List Q} {x : Ctx} {σ : Q} {below : List Q} {s s' : St}
+    (h : BlkT d below0 x σ below s) (hq : s'.queue = s.queue) (hn : s'.nextTag = s.nextTag) :
+    BlkT d below0 x σ below s' :=
+  ⟨h.owner, by rw [hq]; exact h.head, h.tags.frame hq hn, by rw [hq]; exact h.rel, by rw [hq]; exact h.low⟩
+
+theorem SynM.frame {d : Nat} {below0 : List Q} {x : Ctx} {f : Bool} {ms : MS} {s s' : St}
+    (h : SynM d below0 x f ms s) (hq : s'.queue = s.queue) (hn : s'.nextTag = s.nextTag) :
+    SynM d below0 x f ms s' := by
+  obtain ⟨hp, σ, below, hs, hT⟩ := h
+  exact ⟨hp, σ, below, hs, hT.frame hq hn⟩
+
+theorem BlkM.frame {d : Nat} {below0 : List Q} {x : Ctx} {ms : MS} {s s' : St}
+    (h : BlkM d below0 x ms s) (hq : s'.queue = s.queue) (hn : s'.nextTag = s.nextTag) :
+    BlkM d below0 x ms s' := by
+  obtain ⟨hp, σ, below, hs, hT⟩ := h
+  exact ⟨hp, σ, below, hs, hT.frame hq hn⟩
+
+/-- the predicates do not look at the `fresh` flag -/
+theorem SynM.of_stack {d : Nat} {below0 : List Q} {x : Ctx} {f : Bool} {ms ms' : MS} {s : St}
+    (h : SynM d below0 x f ms s) (hp : ms'.pend = none) (hs : ms'.stack = ms.stack) : SynM d below0 x f ms' s := by
+  obtain ⟨_, σ, below, hs0, hT⟩ := h
+  exact ⟨hp, σ, below, hs.trans hs0, hT⟩
+
+/-- what awaited triggers must guarantee while the innermost session is busy with the event `x` -/
+def MSubOK (fin0 : Nat) (sub : Sub) : Prop :=
+  ∀ (d : Nat) (below0 : List Q) (x : Ctx) (f : Bool) (c : Cmd) (ms : MS) (s : St), SynM d below0 x f ms s →
+    APost (accM fin0) (SynM d below0 x f) (SynM d below0 x f) ms s.log (sub c s)
+
+/-- the `call` item of a callback of the event in progress, whatever the session's lag: afterwards in step -/
+theorem call_step (fin0 d : Nat) (below0 : List Q) (x : Ctx) (slot : Slot) (c sv : Nat) (ms : MS) (s : St)
+    (hb : BlkM d below0 x ms s) :
+    ∃ ms1, run fin0 ms [.call slot c x.model x.tag sv] = some ms1 ∧
+      SynM d below0 x (decide (slot = Slot.finalize ∧ c = fin0)) ms1 s := by
+  obtain ⟨hp, σ, below, hs, hT⟩ := hb
+  cases hq : qv x.model s.queue with
+  | nil => have := hT.head; simp [hq] at this
+  | cons k rest =>
+    have hk : k = (x.tag, x.model) := by have := hT.head; simpa [hq] using this
+    subst hk
+    rcases hT.rel with ⟨hr, hf⟩ | ⟨hf, h, hne, _, hr⟩
+    · exact ⟨_, adv_call_sync fin0 ms σ below slot c x.model x.tag sv rest hp hs (by rw [← hr, hq]) hf, rfl, _, _, rfl,
+        ⟨hT.owner, hT.head, hT.tags, hr, rfl, hT.low⟩⟩
+    · exact ⟨_, adv_call_lag fin0 ms σ below slot c x.model x.tag sv h rest hp hs (by rw [hr, hq]) hf hne, rfl, _, _, rfl,
+        ⟨hT.owner, hT.head, hT.tags, hq, rfl, hT.low⟩⟩
+
+/-- the skeleton's interface, for the stack of per-model sessions -/
+def blockM (fin0 d : Nat) (below0 : List Q) (sub : Sub) (hsub : MSubOK fin0 sub) (x : Ctx) :
+    Block (accM fin0) sub x where
+  Blk := BlkM d below0 x
+  Syn := SynM d below0 x
+  Any := AnyM d below0 x
+  toBlk := fun ⟨hp, σ, below, hs, hT⟩ =>
+    ⟨hp, σ, below, hs, ⟨hT.owner, hT.head, hT.tags, Or.inl ⟨hT.rel, hT.fin⟩, hT.low⟩⟩
+  blkAny := fun ⟨hp, σ, below, hs, hT⟩ => ⟨hp, σ, below, hs, ⟨hT.owner, hT.tags, hT.low⟩⟩
+  synAny := fun ⟨hp, σ, below, hs, hT⟩ => ⟨hp, σ, below, hs, ⟨hT.owner, hT.tags, hT.low⟩⟩
+  blkFrame := fun h hq hn => h.frame hq hn
+  synFrame := fun h hq hn => h.frame hq hn
+  callBlk := by
+    intro ms s slot c sv hslot hb
+    obtain ⟨ms1, a1, h1⟩ := call_step fin0 d below0 x slot c sv ms s hb
+    have hd : decide (slot = Slot.finalize ∧ c = fin0) = false := by simp [hslot]
+    rw [hd] at h1
+    exact ⟨ms1, a1, h1⟩
+  done := fun ms c o => adv_done fin0 ms c o
+  sub := fun f c ms s h => hsub d below0 x f c ms s h
+
+/-- the finalize stage: the first finalize callback (`fin0`, the visibility marker) tells the session that the
+event has reached its finalize stage, the others keep it there -/
+theorem finalize_post (fin0 d : Nat) (below0 : List Q) (sub : Sub) (hsub : MSubOK fin0 sub) (sc : Script)
+    (kd : Async.Kinds) (cfg : Cfg) (rest : List Nat) (hfin : cfg.finalize = fin0 :: rest) (hnot : fin0 ∉ rest)
+    (x : Ctx) (ms : MS) (s : St) (hb : BlkM d below0 x ms s) :
+    APost (accM fin0) (SynM d below0 x true) (SynM d below0 x true) ms s.log
+      (Async.callbacks sub sc kd .finalize x cfg.finalize s) := by
+  rw [hfin]
+  unfold Async.callbacks
+  refine APost.map _ ?_
+  refine gather_of_startAll (blockM fin0 d below0 sub hsub x) sc kd (SynM d below0 x true)
+    (fun h hq hn => h.frame hq hn) _ ms s ?_
+  simp only [List.map_cons]
+  rw [startAll_eq]
+  obtain ⟨ms1, a1, h1⟩ := call_step fin0 d below0 x .finalize fin0 (s.stateOf x.model) ms s hb
+  have hd : decide (Slot.finalize = Slot.finalize ∧ fin0 = fin0) = true := by simp
+  rw [hd] at h1
+  refine OPost.cons (start_post (blockM fin0 d below0 sub hsub x) sc kd true
+    { slot := .finalize, cb := fin0 } ms ms1 s a1 h1) ?_
+  intro e ms2 s2 h2
+  have ih := startAll_syn (blockM fin0 d below0 sub hsub x) sc kd true
+    (rest.map fun c => ({ slot := .finalize, cb := c } : Async.Job)) ?_ ms2 s2 h2
+  · show OPost (accM fin0) (SynM d below0 x true) ms2 s2.log
+      ((Async.startAll sub sc kd x (rest.map fun c => ({ slot := .finalize, cb := c } : Async.Job)) s2).map
+        fun q => (e :: q.1, q.2))
+    cases hr : Async.startAll sub sc kd x (rest.map fun c => ({ slot := .finalize, cb := c } : Async.Job)) s2 with
+    | none => trivial
+    | some q => obtain ⟨es, s3⟩ := q; rw [hr] at ih; exact ih
+  · intro j hj ms3 s3 sv h3
+    obtain ⟨c, hc, rfl⟩ := List.mem_map.mp hj
+    have hcne : c ≠ fin0 := fun h => hnot (h ▸ hc)
+    obtain ⟨hp, σ, below, hs, hT⟩ := h3
+    cases hq : qv x.model s3.queue with
+    | nil => have := hT.head; simp [hq] at this
+    | cons k r =>
+      have hk : k = (x.tag, x.model) := by have := hT.head; simpa [hq] using this
+      subst hk
+      exact ⟨_, adv_call_fin fin0 ms3 σ below c x.model x.tag sv r hp hs (by rw [← hT.rel, hq]) hT.fin hcne,
+        rfl, σ, below, rfl, hT⟩
+
+/-- `AsyncEvent._trigger` for the head of the innermost session's queue -/
+theorem eventTrigger_postM (fin0 d : Nat) (below0 : List Q) (sub : Sub) (hsub : MSubOK fin0 sub) (sc : Script)
+    (kd : Async.Kinds) (cfg : Cfg) (rest : List Nat) (hfin : cfg.finalize = fin0 :: rest) (hnot : fin0 ∉ rest)
+    (ts : List Trans) (x : Ctx) (ms : MS) (s : St) (hb : BlkM d below0 x ms s) :
+    APost (accM fin0) (SynM d below0 x true) (AnyM d below0 x) ms s.log
+      (Async.eventTrigger sub sc kd cfg ts x s) :=
+  A5.eventTrigger_post (blockM fin0 d below0 sub hsub x) sc kd cfg
+    (fun ms1 s1 h1 => finalize_post fin0 d below0 sub hsub sc kd cfg rest hfin hnot x ms1 s1 h1) ts ms s hb
+
+/-! ### the drain loop of one session -/
+
+/-- precondition of the drain loop of the innermost session (owner `d`, model `m`): in step with a fresh head, or
+still showing the finalized previous head -/
+def DrainPreM (d : Nat) (below0 : List Q) (m : Nat) (ms : MS) (s : St) : Prop :=
+  ms.pend = none ∧ ∃ σ below, ms.stack = σ :: below ∧ σ.owner = d ∧ TagsOK s ∧ Lower below0 below s.queue m ∧
+    ((qv m s.queue = σ.q ∧ σ.fin = false ∧ qv m s.queue ≠ []) ∨
+     (σ.fin = true ∧ ∃ h, h.2 = m ∧ σ.q = h :: qv m s.queue ∧ ∀ e ∈ qv m s.queue, e.1 ≠ h.1))
+
+/-- the loop has emptied the queue of `m`: exactly the finished head is left in the session -/
+def DoneOk (d : Nat) (below0 : List Q) (m : Nat) (ms' : MS) (s' : St) : Prop :=
+  ms'.pend = none ∧ ∃ σ' below', ms'.stack = σ' :: below' ∧ σ'.owner = d ∧ σ'.fin = true ∧ σ'.q.length = 1 ∧
+    qv m s'.queue = [] ∧ TagsOK s' ∧ LowerDone below0 below' s'.queue
+
+/-- an exception escaped: the queue of `m` has been cleared, the session is still on the stack -/
+def DoneErr (d : Nat) (below0 : List Q) (m : Nat) (ms' : MS) (s' : St) : Prop :=
+  ms'.pend = none ∧ ∃ σ' below', ms'.stack = σ' :: below' ∧ σ'.owner = d ∧
+    qv m s'.queue = [] ∧ TagsOK s' ∧ LowerDone below0 below' s'.queue
+
+theorem adrainM_post (fin0 : Nat) (sc : Script) (kd : Async.Kinds) (cfg : Cfg) (sub : Sub) (hsub : MSubOK fin0 sub)
+    (rest : List Nat) (hfin : cfg.finalize = fin0 :: rest) (hnot : fin0 ∉ rest) (d : Nat) (below0 : List Q) (m : Nat) :
+    ∀ (n : Nat) (ms : MS) (s : St), DrainPreM d below0 m ms s →
+      APost (accM fin0) (DoneOk d below0 m) (DoneErr d below0 m) ms s.log (Async.drain sub sc kd cfg 2 m n s) := by
+  intro n
+  induction n with
+  | zero => intro ms s _; trivial
+  | succ n ih =>
+    intro ms s ⟨hp, σ, below, hs, ho, htags, hlow, hrel⟩
+    cases hq : s.queue.filter (fun e => e.1 = m) with
+    | nil =>
+      simp only [Async.drain, qOf_two, hq]
+      have hqv : qv m s.queue = [] := by simp [qv, hq]
+      rcases hrel with ⟨_, _, hne⟩ | ⟨hf, h, _, hσ, _⟩
+      · exact absurd hqv hne
+      · exact ⟨ms, [], by simp, rfl, hp, σ, below, hs, ho, hf, by rw [hσ, hqv]; rfl, hqv, htags, hlow.toDone hqv⟩
+    | cons e0 r0 =>
+      obtain ⟨m', ev, tag⟩ := e0
+      have hm' : m' = m := by
+        have : (m', ev, tag) ∈ s.queue.filter (fun e => e.1 = m) := by rw [hq]; exact List.mem_cons_self ..
+        simpa using (List.mem_filter.mp this).2
+      subst hm'
+      simp only [Async.drain, qOf_two, hq]
+      have hqv : qv m' s.queue = (tag, m') :: r0.map key := by simp [qv, hq, key]
+      have hb : BlkM d below0 ⟨m', tag⟩ ms s := by
+        refine ⟨hp, σ, below, hs, ⟨ho, by rw [hqv]; rfl, htags, ?_, hlow⟩⟩
+        rcases hrel with ⟨h1, h2, _⟩ | ⟨hf, h, hm, hσ, hne⟩
+        · exact Or.inl ⟨h1, h2⟩
+        · exact Or.inr ⟨hf, h, (hne (tag, m') (by rw [hqv]; exact List.mem_cons_self ..)).symm, hm, hσ⟩
+      have hpost := eventTrigger_postM fin0 d below0 sub hsub sc kd cfg rest hfin hnot ((cfg.event? ev).getD [])
+        ⟨m', tag⟩ ms s hb
+      cases hr : Async.eventTrigger sub sc kd cfg ((cfg.event? ev).getD []) ⟨m', tag⟩ s with
+      | oof => trivial
+      | err e s1 =>
+        rw [hr] at hpost
+        obtain ⟨ms1, seg1, l1, a1, hp1, σ1, below1, hs1, hT1⟩ := hpost
+        refine ⟨ms1, seg1, l1, a1, hp1, σ1, below1, hs1, hT1.owner, ?_, ?_, ?_⟩
+        · show qv m' (Async.qClear 2 m' s1.queue) = []
+          rw [qClear_two]; exact qv_clear_same m' s1.queue
+        · refine hT1.tags.sublist ?_ rfl
+          show (Async.qClear 2 m' s1.queue).Sublist s1.queue
+          rw [qClear_two]; exact List.filter_sublist
+        · show LowerDone below0 below1 (Async.qClear 2 m' s1.queue)
+          rw [qClear_two]
+          refine Lower.toDone (m := m') (hT1.low.frame_top (fun m2 h2 => qv_clear_other h2 _) ?_) (qv_clear_same m' _)
+          intro e he
+          exact Or.inl (List.mem_filter.mp he).1
+      | ok b s1 =>
+        rw [hr] at hpost
+        obtain ⟨ms1, seg1, l1, a1, hp1, σ1, below1, hs1, hT1⟩ := hpost
+        -- popleft
+        have hpre : DrainPreM d below0 m' ms1 { s1 with queue := Async.qPop 2 m' s1.queue } := by
+          refine ⟨hp1, σ1, below1, hs1, hT1.owner, ?_, ?_, ?_⟩
+          · refine hT1.tags.sublist ?_ rfl
+            show (Async.qPop 2 m' s1.queue).Sublist s1.queue
+            rw [qPop_two]; exact eraseFirst_sublist _ _
+          · show Lower below0 below1 (Async.qPop 2 m' s1.queue) m'
+            rw [qPop_two]
+            refine hT1.low.frame_top (fun m2 h2 => qv_eraseFirst_other h2 _) ?_
+            intro e he
+            exact Or.inl ((eraseFirst_sublist _ _).subset he)
+          · show (qv m' (Async.qPop 2 m' s1.queue) = σ1.q ∧ _) ∨ (σ1.fin = true ∧ ∃ h, h.2 = m' ∧
+              σ1.q = h :: qv m' (Async.qPop 2 m' s1.queue) ∧ ∀ e ∈ qv m' (Async.qPop 2 m' s1.queue), e.1 ≠ h.1)
+            rw [qPop_two, qv_eraseFirst_same]
+            have hnd := hT1.tags.qv_nodup m'
+            cases hq1 : qv m' s1.queue with
+            | nil => have := hT1.head; simp [hq1] at this
+            | cons k r =>
+              have hk : k = (tag, m') := by have := hT1.head; simpa [hq1] using this
+              subst hk
+              rw [hq1] at hnd
+              simp only [List.map_cons, List.nodup_cons] at hnd
+              refine Or.inr ⟨hT1.fin, (tag, m'), rfl, ?_, ?_⟩
+              · rw [← hT1.rel]; exact hq1
+              · intro e he h
+                exact hnd.1 (List.mem_map.mpr ⟨e, by simpa using he, h⟩)
+        have h2 := ih ms1 { s1 with queue := Async.qPop 2 m' s1.queue } hpre
+        show APost (accM fin0) _ _ ms s.log
+          (Async.drain sub sc kd cfg 2 m' n { s1 with queue := Async.qPop 2 m' s1.queue })
+        exact APost.pre (A := accM fin0) a1 (by rw [← l1]; exact h2)
 
 end M5
 end TM
